@@ -483,6 +483,7 @@ package boltz
 //@   ensures[exhausted] scanner.current == nil && old(scanner.collected) < scanner.targetLimit ==> curPos[scanner.cursor] == curLen[scanner.cursor] && scanner.collected == old(scanner.collected) && scanner.offset == old(scanner.offset) + cnt(curSeq[scanner.cursor], scanner.filter, scanner.store, curLen[scanner.cursor]) - cnt(curSeq[scanner.cursor], scanner.filter, scanner.store, old(curPos[scanner.cursor]))
 //@   invariant 1: cursor == scanner.cursor && rowCursor == scanner.rowCursor && old(curPos[scanner.cursor]) <= curPos[scanner.cursor] && curPos[scanner.cursor] <= curLen[scanner.cursor]
 //@   invariant 1: old(scanner.collected) >= scanner.targetLimit ==> curPos[scanner.cursor] == old(curPos[scanner.cursor])
+//@   invariant 1: old(scanner.offset) <= scanner.offset
 //@   invariant 1: scanner.collected == old(scanner.collected) && scanner.offset == old(scanner.offset) + cnt(curSeq[scanner.cursor], scanner.filter, scanner.store, curPos[scanner.cursor]) - cnt(curSeq[scanner.cursor], scanner.filter, scanner.store, old(curPos[scanner.cursor])) && scanner.offset <= max(scanner.targetOffset, 0)
 
 // Seek(val): the scanner then stands on a matching element that is not before val (or is exhausted)
